@@ -118,6 +118,8 @@ package hamt
 
 //@ func (hamt.stringTransformer).transformNameNode
 //@ requires recv-pad: 0 <= s.maxPadLen
+//@ prop C02 C15
+//@ at call (github.com/ipld/go-ipld-prime/datamodel.NodeAssembler).AssignString#1 assert strips-exactly-the-prefix-bytes: callee_v == substr(nd.x, s.maxPadLen, len(nd.x))
 
 // ---------------------------------------------------------------------------------------------
 // C05 / C12: a lookup requests at most one shard per level of its hash path, and a failed load is
@@ -235,7 +237,7 @@ package hamt
 //@ at call (*hamt._UnixFSHAMTShard).lookup#1 assert walks-with-this-key-from-the-first-hash-bit: callee_key == key && callee_hv.consumed == 0
 //@ at call hamt.hash#1 assert hashes-the-key-as-given: str(callee_val) == key
 //@ func (*hamt._UnixFSHAMTShard).LookupBySegment
-//@ prop C02 C03 C12 C15
+//@ prop C02 C03 C08 C12 C15
 //@ ensures the-stores-error-is-returned-as-is: !old(loadFailed) && loadFailed ==> err == lastLoadErr
 //@ ensures segment-is-looked-up-by-the-name-it-spells: lastKey(n) == segString(seg)
 //@ func (*hamt._UnixFSHAMTShard).LookupByNode
